@@ -107,6 +107,13 @@ def check(ctx):
             outcomes[("offer", got_o)] = outcomes.get(("offer", got_o), 0) + 1
             if got_o != exp_o:
                 bad("matches_offer", "wrong-result", case, exp_o, got_o)
+            # a StopOffer (TTL 0), an offer / find with the infinite TTL: the TTL does not take part in matching
+            for ttl in (0, 0xFFFFFF):
+                n += 2
+                if sa.matches_offer(entry(T.OfferService, b, ttl=ttl)) != exp_o:
+                    bad("matches_offer", "depends-on-ttl", dict(a=a, b=b, ttl=ttl), exp_o, not exp_o)
+                if sa.matches_find(entry(T.FindService, b, ttl=ttl)) != ref_match(a, b, False, True):
+                    bad("matches_find", "depends-on-ttl", dict(a=a, b=b, ttl=ttl), ref_match(a, b, False, True), None)
             # the entry as it comes off the wire (option indexes instead of resolved options), with and without options
             for opts in ((), (OPT_A,)):
                 eo = dataclasses.replace(entry(T.OfferService, b), options_1=opts)
@@ -156,15 +163,15 @@ def check(ctx):
                 for egs in egsets:
                     sae = cfg.Service(*a, eventgroups=egs)
                     for req in (5, 7):
-                        for counter in (0, 3):
-                            e = entry(T.Subscribe, b, last=(counter << 16) | req)
+                        for counter, ttl in ((0, 3), (3, 3), (0, 0), (15, 0xFFFFFF)):  # also StopSubscribe and the infinite TTL
+                            e = entry(T.Subscribe, b, ttl=ttl, last=(counter << 16) | req)
                             g = sae.matches_subscribe(e)
                             x = ref_match(a, b, True, False, fields=2) and req in egs
                             n += 1
                             outcomes[("sub", g)] = outcomes.get(("sub", g), 0) + 1
                             if g != x:
                                 bad("matches_subscribe", "wrong-result",
-                                    dict(a=a, b=b, eventgroups=sorted(egs), requested=req), x, g)
+                                    dict(a=a, b=b, eventgroups=sorted(egs), requested=req, ttl=ttl, counter=counter), x, g)
             # eventgroup specialisation
             if a[3] == mino[0]:
                 eg = cfg.Eventgroup(a[0], a[1], a[2], 5, ("192.0.2.9", 3000), hdr.L4Protocols.UDP)
